@@ -19,8 +19,9 @@ SPEC = {
         'ignore_errors. Not decided: the tail logic of iter_splitlines, reverse_iter_lines block-boundary handling '
         '(value-level; known defects on inputs like "abc\\n" are not reachable by a structural rule).'
         ' T12.one: iter_splitlines holds no partial second table of line-break characters. T14.jsonl: the ignore_errors handler around json.loads is broad.'
-        ' T17: every result of indent() is built from iter_splitlines(text).'),
-    'decided': ['indent never bypasses the splitter', 'single line-break table', 'broad ignore_errors handler', 'line-ending alternation == required set, subset of splitlines boundaries, longest first',
+        ' T17: every result of indent() is built from iter_splitlines(text).'
+        ' T10.tail: iter_splitlines yields the text after the last break. The ignore_errors handler re-raises exactly when ignore_errors is false.'),
+    'decided': ['tail yielded', 'ignore_errors polarity', 'indent never bypasses the splitter', 'single line-break table', 'broad ignore_errors handler', 'line-ending alternation == required set, subset of splitlines boundaries, longest first',
                 'indent delegates to iter_splitlines', 'JSONLIterator blank-line / error skipping discipline'],
     'declined': ['iter_splitlines tail arithmetic', 'reverse_iter_lines block boundaries', 'JSONLIterator seek alignment'],
     'trusted_base': ['re._parser of this interpreter', 'str.splitlines boundary table (enumerated on CPython 3.12)'],
